@@ -13,6 +13,10 @@ CHECKS = {
    text="Every message of <=3 (quick) / <=4 (thorough) units over a 20-unit alphabet of relative, absolute and common headers on a tree where the same mnemonic exists at three levels, and every history of <=2 (quick) / <=3 (thorough) messages including empty, blank and ';'-terminated messages, is executed by the real Interface::run; the invoked handlers are compared with a text-level reference model of the SCPI path rules, each message alone is compared with the message in sequence, and every Pending pattern with <=2 suspended futures is compared with the unsuspended run. Exhaustive within these bounds.",
    note="Reference model spec::msg/spec::header (plain Rust, never calls microscpi); behaviour after the first faulty unit of a buffer is left to C06; one tree shape (Main).",
    technique="bounded exhaustive enumeration of message sequences on the real code against a reference model; deviation-bounded Pending injection"),
+ "C03": dict(engine="val-enum",
+   text="For each of the 15 parameter types a literal grammar is enumerated completely and executed through the real macro-generated dispatcher of a typed interface (260 handlers): boundary magnitudes (0..300, 2^k-1..2^k+1 for k<=65, 10^k, type MAX/MIN -1..+1) x sign x leading zeros x decimal/#H/#Q/#B notations in both cases, real spellings of integers, all strings of length <=5 over {+ - 0 1 2 9 . E}, 15 000 decimal reals per float type around every rounding boundary (2^24+1, 2^53+1, MAX + half ulp, smallest subnormal and its half), booleans, strings over a separator alphabet, blocks with every byte value, every other data kind on every type, ill-formed lists; all 225 ordered type pairs, declared arity 0..10 against 0..12 supplied parameters, and a mixed 10-parameter handler with each position varied, removed, inserted and swapped. The delivered value must equal the exact value computed by the reference (i128 integers; reals as exact rationals, correct rounding decided by big-unsigned comparison with the half-way points), or the handler must not be called and exactly one error of the named class be reported.",
+   note="Permissive classes (delivered exactly or rejected) are fixed in DESIGN.md 3.3; error numbers are checked only for the classes the property names. The big-unsigned is self-tested against u128 at start-up.",
+   technique="exhaustive enumeration of literal grammars through the real dispatcher and conversions, exact-arithmetic reference"),
  "C05": dict(engine="lex-sweep+env-enum",
    text="All 7.5e8 token strings of <=6 tokens (thorough: <=7) over the 30-token alphabet through Interface::run with a bounded writer, shorter strings with five more writers, all <=3-unit query messages with every writer capacity 0..=64, and process::<N> for N in 1..=16,31..33,64,65 (thorough: up to 128) over message-pool streams and all short token strings with all compositions into reads (short streams) or <=2 cuts: no panic, run returns a suffix, no read into an empty buffer, hook invariant proc_offset<=read_offset<=N, termination only through the transport error, watchdog for non-consuming loops.",
    note="Handlers of the harness never panic; executor polls unconditionally (no lost wake-ups modelled); the random/coverage-guided part of the property's quantifier is outside this technique and not claimed.",
@@ -63,6 +67,7 @@ ENGINES = [
  {"name": "hist-bfs", "path": "harness/mc/src/bin/c09.rs", "kind_free_text": "level-synchronous parallel BFS over operation histories of the real error queue, merged on canonical queue state"},
  {"name": "prog-direct", "path": "harness/mc-macrocore/src/lib.rs", "kind_free_text": "the macro's command.rs/tree.rs included by path; exhaustive declaration sets through the real Tree::insert"},
  {"name": "prog-compiled", "path": "harness/gen/prog.py", "kind_free_text": "declaration sets rendered into generated crates, compiled by the real attribute macro and rustc, executed by harness/mc/src/prog.rs"},
+ {"name": "val-enum", "path": "harness/mc/src/spec/literal.rs", "kind_free_text": "exhaustive enumeration of value / literal grammars with exact-arithmetic oracles (i128, big-unsigned rationals)"},
  {"name": "env-enum", "path": "harness/mc/src/env.rs", "kind_free_text": "scripted transport: all compositions of a stream into reads, zero-length reads, Pending patterns up to a deviation bound, a fault at every call index"},
 ]
 
